@@ -247,4 +247,43 @@ def run_rebuild(prog):
                     res.viol(key, "%s:%s" % (g.file, g.line_of(bi, si)),
                              "the rebuilt %s takes its field `%s` from the original's field `%s`: the branches of the action are crossed, "
                              "the layout chooses one branch and performs the other one's action" % (adt.split("::")[-1], name, crossed[0]))
+    # ---- lists of inner actions (multi, tap-dance, switch cases) are rebuilt one for one
+    import re as _re
+    from rules.r_buildall import _stores, _skipping_path
+    from rules.r_loopvar import loops_of
+    CHANGING = ("Filter<", "FilterMap<", "Skip<", "Take<", "SkipWhile<", "TakeWhile<", "StepBy<", "Flatten<", "FlatMap<", "Chain<",
+                "MapWhile<", "Scan<", "Rev<", "Cycle<", "Dedup")
+    n_lists = 0
+    for g in [f] + prog.closures_of(f):
+        k = 0
+        for bi, t in g.calls():
+            short = (callee_name(t) or "").split("::")[-1]
+            if short not in ("collect", "from_iter") or not t["args"]:
+                continue
+            a = t["args"][0]
+            ty = (g.local_ty(a["l"]) if "l" in a and not a.get("p") else g.place_ty(a)) or ""
+            bad = [c for c in CHANGING if c in ty]
+            key = "list-rebuilt-one-for-one/collect%s" % ("#%d" % k if k else "")
+            k += 1
+            n_lists += 1
+            res.inst(key, where="%s:%s" % (g.file, t.get("ln")), iterator=_re.sub(r"\{closure[^}]*\}", "{closure}", ty)[:120], ok=not bad)
+            res.oblige(not bad)
+            if bad:
+                res.viol(key, "%s:%s" % (g.file, t.get("ln")),
+                         "fill_chords rebuilds a list of inner actions / switch cases through a %s adaptor: the rebuilt list can be "
+                         "shorter than (or ordered differently from) the original, so cases or actions that were configured silently "
+                         "disappear from every action that contains a chord" % "/".join(x.rstrip("<") for x in bad))
+        for li, lp in enumerate(loops_of(g)):
+            for table, blocks in sorted(_stores(g, lp).items()):
+                skip = _skipping_path(g, lp, blocks)
+                key = "list-rebuilt-one-for-one/loop/%s" % table
+                n_lists += 1
+                res.inst(key, where="%s:%s" % (g.file, g.line_of(lp.h)), ok=skip is None)
+                res.oblige(skip is None)
+                if skip is not None:
+                    res.viol(key, "%s:%s" % (g.file, g.line_of(lp.h)),
+                             "the loop of fill_chords that rebuilds `%s` can go round without storing an item (branch lines %s): an inner "
+                             "action / switch case of the original is dropped from the rebuilt action" % (table, skip))
+    if n_lists < 4:
+        res.viol("list-rebuilt-one-for-one/anchor", f.loc, "the list rebuilds of fill_chords (multi, tap-dance, switch) were not found (%d)" % n_lists)
     return res
